@@ -15,7 +15,7 @@ Trace == ndJsonDeserialize(TraceFile)
 
 VARIABLES l, cur, refok, on, off, viol, stat
 vars == <<l, cur, refok, on, off, viol, stat>>
-NoneC == [seen |-> FALSE, ok |-> FALSE, path |-> "", sentinel |-> FALSE, dtrue |-> 0, dfalse |-> 0, execd |-> FALSE, equal |-> TRUE, execsentinel |-> FALSE]
+NoneC == [seen |-> FALSE, ok |-> FALSE, path |-> "", sentinel |-> FALSE, dtrue |-> 0, dfalse |-> 0, execd |-> FALSE, equal |-> TRUE, execsentinel |-> FALSE, shape |-> ""]
 Stat0 == [sc |-> 0, valid |-> 0, native |-> 0, fallback |-> 0, rejected |-> 0, invalid |-> 0]
 Init == l = 1 /\ cur = [id |-> ""] /\ refok = FALSE /\ on = NoneC /\ off = NoneC /\ viol = {} /\ stat = Stat0
 IsEv(e) == l <= Len(Trace) /\ Trace[l].ev = e /\ l' = l + 1
@@ -30,8 +30,8 @@ CreateEv == /\ IsEv("create")
             /\ UNCHANGED <<cur, refok, viol, stat>>
 ExecEv == /\ IsEv("exec")
           /\ LET e == Trace[l] IN
-             IF e.fallback THEN on' = [on EXCEPT !.execd = TRUE, !.equal = e.equal, !.execsentinel = e.sentinel] /\ UNCHANGED off
-             ELSE off' = [off EXCEPT !.execd = TRUE, !.equal = e.equal, !.execsentinel = e.sentinel] /\ UNCHANGED on
+             IF e.fallback THEN on' = [on EXCEPT !.execd = TRUE, !.equal = e.equal, !.execsentinel = e.sentinel, !.shape = e.shape] /\ UNCHANGED off
+             ELSE off' = [off EXCEPT !.execd = TRUE, !.equal = e.equal, !.execsentinel = e.sentinel, !.shape = e.shape] /\ UNCHANGED on
           /\ UNCHANGED <<cur, refok, viol, stat>>
 
 V(c, d) == {<<cur.id, c, d>>}
@@ -40,14 +40,14 @@ EndEv ==
   /\ LET
        \* F1: with fallback on, created iff the reference creates it; executed result = reference result
        f1 == (IF on.seen /\ on.ok # refok THEN V("F1", "creation differs from the reference engine") ELSE {})
-             \cup (IF on.seen /\ on.ok /\ on.execd /\ ~on.equal THEN V("F1", "result differs from the reference engine") ELSE {})
+             \cup (IF on.seen /\ on.ok /\ on.execd /\ ~on.equal THEN V("F1", "result differs from the reference engine (" \o on.shape \o ")") ELSE {})
        \* F2: the path is decided at creation: no executed query fails with an unsupported / not implemented error,
        \*     and the decision is the same with fallback on and off
        f2 == (IF (on.execd /\ on.execsentinel) \/ (off.execd /\ off.execsentinel) THEN V("F2", "unsupported construct discovered during execution") ELSE {})
              \cup (IF on.seen /\ off.seen /\ on.ok /\ ((on.path = "native") # off.ok) THEN V("F2", "native/unsupported decision differs with fallback on and off") ELSE {})
        \* F3: with fallback off: rejected with a sentinel error, or behaves as the reference
        f3 == (IF off.seen /\ refok /\ ~off.ok /\ ~off.sentinel THEN V("F3", "rejected without an unsupported / not implemented error") ELSE {})
-             \cup (IF off.seen /\ off.ok /\ off.execd /\ ~off.equal THEN V("F3", "result differs from the reference engine") ELSE {})
+             \cup (IF off.seen /\ off.ok /\ off.execd /\ ~off.equal THEN V("F3", "result differs from the reference engine (" \o off.shape \o ")") ELSE {})
              \cup (IF off.seen /\ ~refok /\ off.ok THEN V("F3", "accepted a query the reference engine rejects") ELSE {})
        \* F4: one counter increment per created query, labelled with the path taken
        f4(c) == IF ~c.seen THEN {}
